@@ -39,8 +39,13 @@ type shortReader struct {
 
 func (s *shortReader) Read(p []byte) (int, error) {
 	if s.on && len(p) > 1 {
-		n := 1 + rt.Choice("short-read", len(p))
-		p = p[:n]
+		// 1 byte, half, or everything asked for
+		switch rt.Choice("short-read", 3) {
+		case 0:
+			p = p[:1]
+		case 1:
+			p = p[:(len(p)+1)/2]
+		}
 	}
 	return s.r.Read(p)
 }
